@@ -151,9 +151,12 @@ func c07Pairs(tier string) []c07Pair {
 	add("method-vs-arg", "F.IsPos(F.I)", "F.IsPos(F.I2)")
 	add("method-arg-const", "F.IsPos(1)", "F.IsPos(-1)")
 	add("method-arg-float7", "F.F > F.F * 0.0000001", "F.F > F.F * 0.0000002")
-	if tier == "thorough" {
+	{
 		// every pair of a larger constant set
 		cs := []string{"0.1", "0.10000001", "0.1000001", "1e-7", "2e-7", "1.0000001", "1.0000002", "100000.0000001", "100000.0000002"}
+		if tier == "thorough" {
+			cs = append(cs, "0.1000000000000001", "0.30000000000000004", "0.3", "1e-17", "1e-300", "2e-300", "123456789.125", "123456789.25", "1", "1.0", "10", "1e1", "-0.1", "-0.10000001", "0x1p-4", "0.0625")
+		}
 		for i := range cs {
 			for j := i + 1; j < len(cs); j++ {
 				add("float-grid", "F.F + "+cs[i], "F.F + "+cs[j])
